@@ -331,7 +331,7 @@ func (u *ufac) group(parent map[string]any, kidsKey string, depth int, forceB bo
 				c.node["kids"] = nk[:cut]
 				ag := map[string]any{"path": toAny(c.path), "kids": taken}
 				if r.Chance(40) || (hasUses(map[string]any{"kids": taken}, "") && r.Chance(60)) {
-					if w := u.pickWhen(taken, !forceB); w != "" {
+					if w := u.pickWhen(taken, !forceB, true); w != "" {
 						ag["when"] = w
 					}
 				}
@@ -406,7 +406,7 @@ func (u *ufac) group(parent map[string]any, kidsKey string, depth int, forceB bo
 		u.mGroup = append(u.mGroup, g)
 	}
 	if whenLater {
-		if w := u.pickWhen(moved, true); w != "" {
+		if w := u.pickWhen(moved, true, false); w != "" {
 			use["when"] = w
 		}
 	}
@@ -837,7 +837,7 @@ func (u *ufac) augment(body []any) {
 		a["iff"] = fl
 	}
 	if !dupInside && r.Chance(25) {
-		if w := u.pickWhen(taken, true); w != "" {
+		if w := u.pickWhen(taken, true, true); w != "" {
 			a["when"] = w
 		}
 	}
@@ -1252,7 +1252,7 @@ func (u *ufac) introduced(kids []any, out *[]string, depth int) {
 
 // a `when` for a uses / augment that introduces `kids`: written on every node introduced in the inline module
 // (a node takes one `when` only); "" when some node has one already
-func (u *ufac) pickWhen(kids []any, inM bool) string {
+func (u *ufac) pickWhen(kids []any, inM bool, asParent bool) string {
 	var names []string
 	u.introduced(kids, &names, 0)
 	if len(names) == 0 {
@@ -1275,6 +1275,9 @@ func (u *ufac) pickWhen(kids []any, inM bool) string {
 	}
 	for _, pn := range all {
 		pn["whens"] = []any{w}
+		// the when of an augment is evaluated at the node the augment targets — for every node the augment adds, also those a
+		// uses inside it brings in; the when of a uses (as the code has it) at the node itself
+		pn["whenAsParent"] = asParent
 	}
 	return w
 }
@@ -1571,6 +1574,27 @@ func stripNs(d *dnode, ns map[string]string) *dnode {
 	return out
 }
 
+// where the when of every node of the factored module is evaluated (at the node or at its parent) against what the
+// generator knows about where the expression was written
+func whenContexts(d *dnode, plain []any) string {
+	for _, f := range strings.Fields(d.attrs) {
+		if strings.HasPrefix(f, "when=") {
+			parts := strings.SplitN(f, "/", 2)
+			if pn := findByName(plain, d.name); pn != nil && len(parts) == 2 {
+				if want, ok := pn["whenAsParent"].(bool); ok && fmt.Sprint(want) != parts[1] {
+					return fmt.Sprintf("the when of %s is evaluated at the parent: %s, expected %v", d.name, parts[1], want)
+				}
+			}
+		}
+	}
+	for _, k := range d.kids {
+		if r := whenContexts(k, plain); r != "" {
+			return r
+		}
+	}
+	return ""
+}
+
 func runYUses(c Case) string {
 	fact, plain := yusesTexts(c)
 	if os.Getenv("YV_SHOW") != "" {
@@ -1588,8 +1612,12 @@ func runYUses(c Case) string {
 		fns, pns := map[string]string{}, map[string]string{}
 		fd := stripNs(dumpModelSet(fms), fns)
 		pd := stripNs(dumpModelSet(pms), pns)
-		if fd.String() == pd.String() {
+		whenBad := whenContexts(dumpModelSet(fms), carr(c, "plain"))
+		if fd.String() == pd.String() && whenBad == "" {
 			out = append(out, "tree:equal")
+		} else if whenBad != "" {
+			out = append(out, "tree:DIFF")
+			detail = whenBad
 		} else {
 			out = append(out, "tree:DIFF")
 			detail = firstDiff(fd.String(), pd.String())
